@@ -32,6 +32,8 @@ def energy_case(draw, tier="quick"):
     wl = draw(gen.finite(0.4e-6, 2e-6))
     z = draw(gen.finite(0.5, 30.0))
     dxr = draw(gen.pos_log(1e-4, 1e-1))
+    if draw(st.integers(0, 5)) == 0:            # the same geometry at unusual physical magnitudes
+        wl, z, dxr = draw(gen.pos_log(1e-9, 1e-3)), draw(gen.pos_log(1e-3, 1e3)), draw(gen.pos_log(1e-8, 1.0))
     dxc = dxr * draw(st.sampled_from([1.0, 1.0, 0.6, 2.2]))
     du = (wl * z * os_ / (dxr * N[0]), wl * z * os_ / (dxc * N[1]))
     amp, opd, mask = draw(gen.aperture(shape, wl, max_waves=2.0, min_samples=3))
